@@ -148,6 +148,14 @@ func (f *Frame) execStmt(st *State, s ast.Stmt) *State {
 		f.defers = append(f.defers, x)
 		f.unsupported(s, "defer of %s", exprString(x.Call.Fun))
 	case *ast.GoStmt:
+		if f.top && f.c.contract != nil && f.c.contract.Glue {
+			// glue contract: the goroutine's body is not modelled; its arguments are evaluated here (as Go does)
+			f.c.note("glue contract " + f.c.fnName + ": `go " + exprString(x.Call.Fun) + "(...)` starts a goroutine that is not modelled (arguments are evaluated at the go statement)")
+			for _, a := range x.Call.Args {
+				f.eval(st, a)
+			}
+			return st
+		}
 		f.unsupported(s, "go statement")
 	case *ast.SendStmt:
 		f.c.note("channel send dropped")
